@@ -663,3 +663,55 @@ Lemma encode_parse_nonzero_padding_refuted : exists p,
 Proof.
   eexists. split; [reflexivity|]. split; [vm_compute; reflexivity|]. vm_compute. intros H. discriminate H.
 Qed.
+
+(** * deconstruct o Parse on arbitrary words (bit reasoning, no range hypothesis) *)
+Lemma bit_testbit w k : 0 <= k -> bit w k = Z.testbit w k.
+Proof.
+  intros Hk. unfold bit.
+  assert (E : Z.land (Z.shiftr w k) 1 = Z.b2z (Z.testbit w k)).
+  { change 1 with (Z.ones 1). rewrite Z.land_ones by lia. change (2 ^ 1) with 2.
+    rewrite <- Z.bit0_mod, Z.shiftr_spec by lia. reflexivity. }
+  rewrite E. destruct (Z.testbit w k); reflexivity.
+Qed.
+
+Lemma land_pow2 w k : 0 <= k -> Z.land w (2 ^ k) = if Z.testbit w k then 2 ^ k else 0.
+Proof.
+  intros Hk. apply Z.bits_inj'. intros n Hn.
+  rewrite Z.land_spec, Z.pow2_bits_eqb by lia.
+  destruct (Z.eqb_spec k n) as [->|Hne].
+  - rewrite andb_true_r. destruct (Z.testbit w n); [rewrite Z.pow2_bits_eqb, Z.eqb_refl by lia | rewrite Z.bits_0]; reflexivity.
+  - rewrite andb_false_r. destruct (Z.testbit w k); [rewrite Z.pow2_bits_eqb by lia; symmetry; now apply Z.eqb_neq | now rewrite Z.bits_0].
+Qed.
+
+(* encoding the decoded flags keeps exactly the defined bits of the word *)
+Lemma decon_parse_pc w : decon_pc (parse_pc w) = Z.land w PC_MASK.
+Proof.
+  unfold parse_pc, decon_pc; cbn [pc_npw pc_owner pc_auxdel pc_sinitcaps].
+  rewrite !bit_testbit by lia.
+  change PC_MASK with (Z.lor (Z.lor (Z.lor (2 ^ 0) (2 ^ 1)) (2 ^ 2)) (2 ^ 31)).
+  rewrite !Z.land_lor_distr_r, !land_pow2 by lia.
+  destruct (Z.testbit w 0), (Z.testbit w 1), (Z.testbit w 2), (Z.testbit w 31); reflexivity.
+Qed.
+
+Lemma decon_parse_ah w : decon_ah (parse_ah w) = Z.land w AH_MASK.
+Proof.
+  unfold parse_ah, decon_ah; cbn [ah_sha1 ah_sha256 ah_sha384 ah_sm3].
+  rewrite !bit_testbit by lia.
+  change AH_MASK with (Z.lor (Z.lor (Z.lor (2 ^ 0) (2 ^ 3)) (2 ^ 5)) (2 ^ 6)).
+  rewrite !Z.land_lor_distr_r, !land_pow2 by lia.
+  destruct (Z.testbit w 0), (Z.testbit w 3), (Z.testbit w 5), (Z.testbit w 6); reflexivity.
+Qed.
+
+Lemma decon_parse_as w : decon_as (parse_as w) = Z.land w AS_MASK.
+Proof.
+  unfold parse_as, decon_as; cbn [as_rsa2048sha1 as_rsa2048sha256 as_rsa3072sha256 as_rsa3072sha384 as_ecdsap256sha256 as_ecdsap384sha384 as_sm2].
+  rewrite !bit_testbit by lia.
+  change AS_MASK with (Z.lor (Z.lor (Z.lor (Z.lor (Z.lor (Z.lor (2 ^ 2) (2 ^ 3)) (2 ^ 6)) (2 ^ 7)) (2 ^ 12)) (2 ^ 13)) (2 ^ 16)).
+  rewrite !Z.land_lor_distr_r, !land_pow2 by lia.
+  destruct (Z.testbit w 2), (Z.testbit w 3), (Z.testbit w 6), (Z.testbit w 7), (Z.testbit w 12), (Z.testbit w 13), (Z.testbit w 16); reflexivity.
+Qed.
+
+Lemma flags_words_roundtrip wpc wah was :
+  decon_pc (parse_pc wpc) = Z.land wpc PC_MASK /\ decon_ah (parse_ah wah) = Z.land wah AH_MASK /\
+  decon_as (parse_as was) = Z.land was AS_MASK.
+Proof. split; [apply decon_parse_pc | split; [apply decon_parse_ah | apply decon_parse_as]]. Qed.
